@@ -2,6 +2,7 @@ package harness
 
 import (
 	"bytes"
+	"errors"
 	"fmt"
 	"os"
 	"regexp"
@@ -25,6 +26,7 @@ const c19Rule = "case = file-backed segment (small / block families, built or me
 
 type rop struct {
 	reuse  bool // postings: pass the goroutine's previous postings list / iterator as prealloc
+	early  bool // postings: stop after the first posting (leaves the iterator half-consumed for a later reuse)
 	kind   int
 	field  string
 	term   string
@@ -38,8 +40,8 @@ func (o rop) String() string {
 	case 0:
 		return fmt.Sprintf("dict(%q)", o.field)
 	case 1:
-		if o.reuse {
-			return fmt.Sprintf("postings(%q,%q,reuse)", o.field, o.term)
+		if o.reuse || o.early {
+			return fmt.Sprintf("postings(%q,%q,reuse=%v,stopEarly=%v)", o.field, o.term, o.reuse, o.early)
 		}
 		return fmt.Sprintf("postings(%q,%q)", o.field, o.term)
 	case 2:
@@ -52,6 +54,8 @@ func (o rop) String() string {
 		return fmt.Sprintf("stats(%q)", o.field)
 	case 6:
 		return "mergeAsInput"
+	case 8:
+		return "cancelledMerge"
 	default:
 		return "persist"
 	}
@@ -129,6 +133,9 @@ func (o rop) run(env *ropEnv) (res string, err error) {
 				if firstErr == nil {
 					ps = append(ps, XPosting{Doc: p.Number(), Freq: p.Frequency(), Norm: float32(p.Norm()), Locs: copyLocs(p.Locations())})
 				}
+				if o.early && firstErr == nil {
+					break
+				}
 			}
 			if firstErr != nil {
 				return firstErr
@@ -194,6 +201,18 @@ func (o rop) run(env *ropEnv) (res string, err error) {
 				return err
 			}
 			fmt.Fprintf(&sb, "merged:%d:%x", buf.Len(), hash64(buf.String()))
+		case 8:
+			// a merge (document-by-document stored path: one document dropped) cancelled when the first bytes reach the writer
+			drop := roaring.New()
+			if env.seg.Count() > 0 {
+				drop.Add(0)
+			}
+			w := &closeAt{k: 1, ch: make(chan struct{})}
+			_, err := ice.Merge([]segment.Segment{env.seg}, []*roaring.Bitmap{drop}, 16).WriteTo(w, w.ch)
+			if err != nil && !errors.Is(err, segment.ErrClosed) {
+				return err
+			}
+			sb.WriteString("cancelled-or-complete")
 		default:
 			var buf bytes.Buffer
 			_, err := env.seg.WriteTo(&buf, nil)
@@ -301,12 +320,13 @@ func genRops(t *rapid.T, c *SegCase) []rop {
 	}
 	var ops []rop
 	for i := 0; i < n; i++ {
-		o := rop{kind: rapid.SampledFrom([]int{0, 0, 1, 1, 1, 2, 2, 3, 3, 4, 5, 6, 7}).Draw(t, "opKind")}
+		o := rop{kind: rapid.SampledFrom([]int{0, 0, 1, 1, 1, 2, 2, 3, 3, 4, 5, 6, 7, 8}).Draw(t, "opKind")}
 		switch o.kind {
 		case 0, 5:
 			o.field = pickField("field")
 		case 1:
 			o.reuse = rapid.Bool().Draw(t, "reuse")
+			o.early = rapid.IntRange(0, 3).Draw(t, "stopEarly") == 0
 			if len(present) > 0 && rapid.IntRange(0, 5).Draw(t, "presentTerm") > 0 {
 				p := present[rapid.IntRange(0, len(present)-1).Draw(t, "pt")]
 				o.field, o.term = p.f, p.t
@@ -329,6 +349,29 @@ func genRops(t *rapid.T, c *SegCase) []rop {
 			}
 		}
 		ops = append(ops, o)
+	}
+	// with some probability: a walk that stops early followed by a lookup that reuses its list and iterator
+	if len(present) > 0 && rapid.IntRange(0, 2).Draw(t, "earlyThenReuse") == 0 {
+		a := present[rapid.IntRange(0, len(present)-1).Draw(t, "earlyTerm")]
+		b := present[rapid.IntRange(0, len(present)-1).Draw(t, "reuseTerm")]
+		// prefer: A's second posting carries many locations (they stay unread in the reused reader),
+		// B's first posting has locations but a small frequency
+		bestA, bestB := -1, 1<<30
+		for _, p := range present {
+			pl := c.Exp.Post[p.f][p.t]
+			if len(pl) >= 2 && len(pl[1].Locs) > bestA {
+				bestA, a = len(pl[1].Locs), p
+			}
+		}
+		for _, p := range present {
+			pl := c.Exp.Post[p.f][p.t]
+			if p != a && len(pl[0].Locs) > 0 && pl[0].Freq < bestB {
+				bestB, b = pl[0].Freq, p
+			}
+		}
+		at := rapid.IntRange(0, len(ops)).Draw(t, "pairAt")
+		pair := []rop{{kind: 1, field: a.f, term: a.t, early: true}, {kind: 1, field: b.f, term: b.t, reuse: true}}
+		ops = append(ops[:at:at], append(pair, ops[at:]...)...)
 	}
 	return ops
 }
